@@ -73,8 +73,9 @@ def random_grammar(rng, ncat, ntags, head_left=None, density=None, max_results=3
                     h = head_left if not mixed_heads else rng.random() < 0.5
                     res.append((rng.randrange(ncat), f'b{k}', f'<b{k}>', h))
                     k += 1
-                if rng.random() < 0.2 and len(res) >= 2:      # same category, different label
-                    res[1] = (res[0][0],) + res[1][1:]
+                if rng.random() < 0.3 and len(res) >= 2:      # same category, different label (any two positions)
+                    i, j = sorted(rng.sample(range(len(res)), 2))
+                    res[j] = (res[i][0],) + res[j][1:]
                 binary[(x, y)] = res
     for x in range(ncat - 1):
         if rng.random() < unary_p:
